@@ -299,8 +299,7 @@ PROPS["C08"] = {
                  "under the original key, stale-signer sessions yield no signature anywhere",
     "level_text": "Histories of up to 7 operations (CMP: 3-5) with up to 3 refreshes are generated and shrunk as one value; each refresh is a real protocol run under a generated "
                   "schedule. The reconstruction oracle and the signature verifier are independent references.",
-    "level_note": "With threshold 0 every share equals the key, so 'shares changed' and 'stale signer' are necessarily vacuous there and are skipped. Doerner material cannot be "
-                  "restored from bytes (C15 finding), so 'restore' is skipped for Doerner. CMP volumes small.",
+    "level_note": "With threshold 0 every share equals the key, so 'shares changed' and 'stale signer' are necessarily vacuous there and are skipped. CMP volumes small.",
     "rule": "case = (scheme, source, n, t, executed history shape over R=refresh S=restore G=sign X=stale-sign C=same-epoch reconstruct M=mixed-epoch reconstruct); non-trivial iff a "
             "refresh is followed by a mixed-epoch action, a stale sign or a restore; distinct = distinct class keys",
     "assumptions": ["CMP refresh uses injected safe primes (hook H1)"],
@@ -337,6 +336,35 @@ PROPS["C20"] = {
         "thorough": [
             {"run": "^TestSingles$", "shards": 12, "timeout": 900},
             {"run": "^TestPairs$", "checks": 50000, "shards": 8},
+        ],
+    },
+}
+
+PROPS["C15"] = {
+    "pkg": "c15", "level": "exploration",
+    "technique": "property-based round-trip and corruption testing (rapid): every stored type is serialised with its documented encoder, restored with its documented decoder, "
+                 "compared structurally and used in a follow-up protocol run; encodings are corrupted at tree level (one CBOR node selected by path: null, absent, wrong type, "
+                 "zero/truncated/extended bytes, identity point, out-of-range integers, duplicated/dropped entries, sibling copies) and at byte level; oracle = error, or an object "
+                 "satisfying the validity predicate of the statement; whole sessions are also run with every wire message crossing Message.MarshalBinary/UnmarshalBinary",
+    "level_text": "8 types (cmp.Config, frost.Config, frost.TaprootConfig, doerner.ConfigSender/Receiver, ecdsa.PreSignature, ecdsa.Signature, protocol.Message) for n in 2..4 and "
+                  "all t. Restored objects must be equivalent, must work together with the other parties' originals in a later signing session (independent verifier), and "
+                  "corrupted encodings must never restore without error into an empty object or one that breaks the validity rules (zero secrets, identity points, moduli "
+                  "that are not odd 2048-bit numbers, invalid Pedersen parameters, thresholds outside 0..n-1, missing own entry).",
+    "level_note": "The validity predicate is evaluated by the harness on the restored object's public fields. For protocol.Message 'valid' means: the bytes decode as a message "
+                  "in an independent struct mirror. Native fuzzing of the decoders is part of the thorough tier.",
+    "rule": "case = (type, mode, corruption kind, generic path of the corrupted node) or (type, n, t, whether used in a follow-up run); non-trivial: every corruption case, and "
+            "round trips that are used afterwards or concern key material; distinct = distinct class keys",
+    "assumptions": [],
+    "tiers": {
+        "quick": [
+            {"run": "^TestCorrupt$", "checks": 24000, "shards": 8},
+            {"run": "^TestRoundTrip$", "checks": 320, "shards": 8},
+            {"run": "^TestWireRoundTrip$", "checks": 200, "shards": 2},
+        ],
+        "thorough": [
+            {"run": "^TestCorrupt$", "checks": 1200000, "shards": 12},
+            {"run": "^TestRoundTrip$", "checks": 12000, "shards": 12},
+            {"run": "^TestWireRoundTrip$", "checks": 8000, "shards": 4},
         ],
     },
 }
